@@ -1,6 +1,6 @@
 (* gen_headers_match (translated from pyp0f's headers_match) agrees with the hand model headers_match. *)
 From Coq Require Import Lia ZArith List Bool.
-From PV Require Import Model.Prelude Model.Text Model.SigParse Model.HttpRead Model.HttpMatch Gen.Generated.
+From PV Require Import Model.Prelude Model.Text Model.SigParse Model.HttpRead Model.HttpMatch Gen.Generated_http.
 Import ListNotations.
 Local Open Scope Z_scope.
 
